@@ -451,8 +451,11 @@ pub fn run_case(line: &str) -> (String, Vec<String>) {
             fails.push(format!("C04:item handed out before the I/O error differs from the fault-free run: {} vs {}", base_text, free.text(false)));
         }
     }
-    // ---- C08: error location designates a position inside the input
-    if let Some(rest) = base.fin.strip_prefix("E:syn:") {
+    // ---- C08: error location designates a position inside the input (under every schedule)
+    let mut all_runs: Vec<(&str, &RunObs)> = vec![("one-shot", &base)];
+    all_runs.extend(variants.iter().map(|(n, r)| (n.as_str(), r)));
+    for (sname, run) in all_runs.iter() {
+    if let Some(rest) = run.fin.strip_prefix("E:syn:") {
         let (l, col) = rest.split_once(':').unwrap();
         let (l, col): (usize, usize) = (l.parse().unwrap(), col.parse().unwrap());
         // lines of the input; an unterminated last line counts, a trailing newline does not open one
@@ -462,20 +465,26 @@ pub fn run_case(line: &str) -> (String, Vec<String>) {
         }
         let len_of = |l: usize| if l <= lines.len() { lines[l - 1].len() } else { 0 };
         if l < 1 || l > lines.len() + 1 {
-            fails.push(format!("C08:error line {} outside 1..={}", l, lines.len() + 1));
+            fails.push(format!("C08:error line {} outside 1..={} (schedule {})", l, lines.len() + 1, sname));
         } else if col < 1 || col > len_of(l) + 1 {
-            fails.push(format!("C08:error column {} outside 1..={} of line {}", col, len_of(l) + 1, l));
+            fails.push(format!("C08:error column {} outside 1..={} of line {} (schedule {})", col, len_of(l) + 1, l, sname));
         }
         if let Some((tl, tc, tn)) = c.tok {
             if l != tl || col < tc || col > tc + tn {
-                fails.push(format!("C08:error at {}:{} but the corrupted token is at {}:{}..{}", l, col, tl, tc, tc + tn));
+                fails.push(format!("C08:error at {}:{} but the corrupted token is at {}:{}..{} (schedule {})", l, col, tl, tc, tc + tn, sname));
             }
         }
-    } else if c.tok.is_some() && !fault && base.fin == "END" && c.expect.is_none() {
-        // a corruption the grammar tolerates is not an error; nothing to check
+    }
     }
     // ---- C07 / C03: the value that was rendered
     if let Some(x) = &c.expect {
+        for (sname, run) in all_runs.iter().skip(1) {
+            if !fault && &run.text(false) != x {
+                fails.push(format!("C07:under schedule {} parsed {} but the rendered value is {}", sname, run.text(false), x));
+                fails.push(format!("C03:under schedule {} parsed {} but the written value is {}", sname, run.text(false), x));
+                break;
+            }
+        }
         if !fault && &base_text != x {
             fails.push(format!("C07:parsed {} but the rendered value is {}", base_text, x));
             // the writers' output is one of the layouts: the same mismatch breaks write∘parse = id
